@@ -13,7 +13,7 @@ import random
 from typing import List
 
 from ..common import Ctx, MachineryError
-from ..meshlib import DELTA, apply_settings, base_pos, build_fresh, first_diff, make_op, pos_coords, write_and_parse
+from ..meshlib import DELTA, apply_settings, base_pos, build_fresh, first_diff, make_op, new_mesh, pos_coords, write_and_parse
 from ..tlc import run_tlc
 from .grading import cfg_text
 
@@ -39,7 +39,7 @@ def replay_history(ctx: Ctx, rec: dict, nops: int):
 
     problems = []
     ops = {o: make_op(o, nops, [base_pos(o, k) for k in range(1, 9)]) for o in range(1, nops + 1)}
-    mesh = cb.Mesh()
+    mesh = new_mesh()
     w = 0
     since: List[str] = []
     for call in rec["hist"]:
